@@ -84,3 +84,8 @@ claim("C15", "static analysis: linear forms and provenance on proposal construct
   "Decides that the proposal's base is the head finalized by certificate instance−1 (bootstrap tipset at BootstrapEpoch−Finality first), that the suffix walk collects only the head and parents, ends only on key equality with the base and returns an empty suffix on divergence, the length bound min(ChainMaxLen, ChainProposedLength) and shortening-only trims, that each tipset carries the CID of EC's table for its own key and the supplemental data commits to GetCommittee(instance+1), the committee look-back rule as linear forms (threshold, certificate index, no wrap), that GetCommittee touches only finalized history on the EC backend, and the participant-side truncation/validation (C15.R1–R7). Necessary structural conditions; agreement with an EC-tree model on all trees is not decided.",
   "Trusts go/types, go/ssa, checker/lin.go, checker/c15.go.",
   "DESIGN.md §4 C15")
+
+claim("C14", "static analysis: ordered write-sequence extraction for signed bytes, sibling key computations, generated-codec shape (field order/count, bounded header-sized allocations by SCCP), codec reset and pooled-buffer lifetime",
+  "Decides the exact ordered item sequence written into the signed bytes of payloads, tipsets and VRF inputs (every field present, fixed-width integers, fenced variable-length parts, distinct domain tags); that the three chain-key computations hash every tipset's signing bytes in order with prefix i ↔ batch[i]; for each of the generated codecs that fields written = fields read = declaration order with the header count, every header-sized allocation is unreachable without an upper-bound check and each maxlen tag is enforced; that the ECChain codec resets its receiver (and cached key); and the zstd caps and pooled-buffer lifetime (C14.R1–R6). Necessary structural conditions; round-trip equality on all values and third-party decoder robustness are not decided.",
+  "Trusts cbor-gen helper contracts, go/types, go/ssa, checker/c14.go.",
+  "DESIGN.md §4 C14")
